@@ -6,11 +6,13 @@
        `sn_i nm` of width iw, one instance array `sn_units nm` of n units (a leaf device with the ports io), connected
            port b  : Concat(i, b)      port a : Concat(a, i)      every other port p : the same-named port of the stack
        (Model/C19Series.v:series_conn, later assignment wins, with the width of the internal bus as a parameter).
-   series_design_code  iw = n - 1        what generators.py builds (`h.Signal(width=params.nser - 1)`)
-   series_design       iw = (n - 1) * w  the bit-by-bit chain for series ports of width w; for w = 1 it IS series_design_code.
-   For w > 1 generators.py builds series_design_code, which is NOT a valid design (Concat width w + n - 1 is neither w nor
-   n * w: Props/C19E.v:C19E_code_wide_rejected) - the implementation rejects it in the array flattener; the theorems about
-   series_design for w > 1 say what the documented topology is bit by bit (Spec/C19Topology.v header).
+   series_design       iw = (n - 1) * w  what generators.py builds (fixes/C19W-1: `(params.nser - 1) * series_conns[0].width`):
+                                         the bit-by-bit chain for series ports of width w; it IS the module of
+                                         Model/C19Series.v:series_module for every w (Props/C19E.v:C19E_design_is_model).
+   series_design_code  iw = n - 1        what the PINNED generators.py built (`h.Signal(width=params.nser - 1)`); for w = 1 the
+                                         same design; for w > 1 NOT a valid design (Concat width w + n - 1 is neither w nor
+                                         n * w: Props/C19E.v:C19E_pinned_code_wide_refuted) - the pinned implementation
+                                         refused every such call in the array flattener, against the property.
    wrapper_design nm io : Wrapper / nser = 1: one plain instance, every port on the same-named port. *)
 Require Import Hdl21.Base.PyInt Hdl21.Spec.PySlice Hdl21.Model.Slice Hdl21.Model.Resolve Hdl21.Base.Design Hdl21.Spec.Nets
                Hdl21.Spec.C19Topology Hdl21.Model.C19Series.
